@@ -194,6 +194,15 @@ function stable_compare(a, b) {
 }
 
 
+function compare_key_arrays(a, b) {
+    for (var i = 0; i < a.length && i < b.length; i++) {
+        if (a[i] !== b[i])
+            return a[i] < b[i] ? -1 : 1;
+    }
+    return a.length - b.length;
+}
+
+
 function safe_get(record, idx) {
     return idx < record.length ? record[idx] : null;
 }
@@ -702,7 +711,8 @@ class AggregateWriter {
 
     async finish() {
         var all_keys = Array.from(this.aggregation_keys);
-        all_keys.sort();
+        // Keys are JSON-encoded arrays (or a single null without GROUP BY): order them by their values, not by their JSON text.
+        all_keys.sort((a, b) => (a === null || b === null) ? 0 : compare_key_arrays(JSON.parse(a), JSON.parse(b)));
         for (var i = 0; i < all_keys.length; i++) {
             var key = all_keys[i];
             var out_fields = [];
